@@ -8,6 +8,19 @@ d = json.load(open(dump))
 kf = json.load(open("/verif/known_findings.json"))
 
 GROUPS_C02 = [
+    ("KF-C02-12", r"fam/.*delete_unused_functions_and_classes/(class-body-effect|init-subclass|registering-decorator)", "delete_unused_functions_and_classes deletes every definition that is not referenced by name: a class whose body calls user code when the class statement runs (`class Unused: k = effect()`), a subclass that registers itself through `__init_subclass__`, and a function registered by its decorator are removed, so their effects disappear. 'Unused' is decided by name references only; by design."),
+    ("KF-C02-13", r"fam/.*implicit_defaultdict/read-missing-key-later", "implicit_defaultdict: the variable is a collections.defaultdict afterwards, so a later read of a missing key inserts it instead of raising KeyError (see KF-C01-08)."),
+    ("KF-C02-14", r"fam/.*inline_math_comprehensions/dependency-mutated-by-call", "inline_math_comprehensions moves a comprehension to its single use although a call in between mutates the list it iterates over (`z = [x * 2 for x in xs]; grow(); t = sum(z)`): only names that appear textually between definition and use are checked."),
+    ("KF-C02-15", r"fam/.*remove_duplicate_dict_keys/order", "remove_duplicate_dict_keys keeps the *last* occurrence of a repeated constant key: `{1: a, 2: 0, 1: b}` becomes `{2: 0, 1: b}`, whose iteration order is [2, 1] instead of [1, 2] (Python keeps the position of the first occurrence). The repository's own integration example expects this output."),
+    ("KF-C02-16", r"fam/.*replace_dict_assign_with_dict_literal/evaluation-order", "replace_dict_assign_with_dict_literal: `d[k()] = v()` evaluates v() before k(), the dict display `{k(): v()}` evaluates k() first; with effectful key and value the order of effects changes."),
+    ("KF-C02-17", r"fam/.*replace_with_filter/loopvar-after", "replace_with_filter turns `for x in xs: if x: ...` into `for x in filter(None, xs): ...`; the loop variable read after the loop is then the last *truthy* element instead of the last element (loop-variable family, see KF-C02-06)."),
+    ("KF-C02-18", r"fam/.*simplify_redundant_lambda/(late-binding|rebound-global)", "simplify_redundant_lambda replaces `lambda q: h(q)` by `h`: the lambda looks `h` up at call time, the replacement binds it at definition time, so rebinding `h` afterwards (local or global) is no longer seen."),
+    ("KF-C02-19", r"fam/.*simplify_transposes/zipzip", "simplify_transposes replaces `zip(*zip(*arr))` by `arr`: rows stay lists instead of becoming tuples and ragged rows are no longer truncated to the shortest (the repository's own unit test expects this rewrite)."),
+    ("KF-C02-20", r"fam/.*move_staticmethod_static_scope/subclass-override", "move_staticmethod_static_scope rewrites `self.helper(x)` to a call of the extracted module-level function, which bypasses an override of the static method in a subclass."),
+    ("KF-C02-21", r"fam/.*remove_unused_self_cls/(called-via-class|overridden)", "remove_unused_self_cls makes a method that does not use `self` a staticmethod: explicit calls through the class with an instance argument (`A.m(a, x)`) and overrides in subclasses that still take `self` then fail with TypeError."),
+    ("KF-C02-22", r"fam/.*remove_redundant_chained_calls/reversed-ties", "remove_redundant_chained_calls: `reversed(sorted(xs, key=k))` becomes `sorted(xs, key=k, reverse=True)`; elements with equal keys keep their original relative order instead of being reversed."),
+    ("KF-C02-23", r"fam/.*remove_redundant_iter/mutated-in-comprehension-call", "remove_redundant_iter removes the copy in `[drop(x) for x in list(xs)]` although the element expression calls a function that mutates xs (only loop bodies that mention the iterable by name are recognised)."),
+    ("KF-C02-24", r"fam/.*replace_sorted_heapq/ties-key", "replace_sorted_heapq: `sorted(ps, key=k)[-1]` becomes `max(ps, key=k)`: among elements with the maximal key, sorted()[-1] is the last one and max() the first."),
     ("KF-C02-01", r"symbolic_math\.simplify_boolean_expressions/(rboolop|harvest)", "simplify_boolean_expressions folds a BoolOp with a constant operand to True/False also in value position: `1 and ''` is '' but becomes False, `x or 1 or ''` is 1 but becomes True (`x and y and f(x(3)) and not f(x(3))` -> False also drops the calls). The rule treats every BoolOp as a condition; by design."),
     ("KF-C02-02", r"replace_nested_loops_with_set_list_comp", "replace_nested_loops_with_set_list_comp eliminates the intermediate variable of the inner loop (`m = list(range(B)); l.extend(m)` -> `l.extend(b for a in .. for b in ..)`) without checking that it is unused afterwards: NameError when it is read after the loop."),
     ("KF-C02-03", r"move_before_loop", "move_before_loop hoists a loop-invariant assignment in front of a loop that may run zero times; the assignment is then executed although the loop body never ran (visible when the target already had a value or is read afterwards). Zero-trip safety needs a liveness analysis of the target."),
